@@ -451,4 +451,429 @@ theorem prog_lexExpressionLoop : ∀ (n : Nat) (s : Scan), s.input.size - s.pos 
 theorem prog_lexExpression (s : Scan) : Prog s (lexExpression s) :=
   prog_lexExpressionLoop _ s (by omega)
 
+theorem good_lexOpcodeIndex (s : Scan) : Good s (lexOpcodeIndex s) := by
+  unfold lexOpcodeIndex
+  simp only []
+  apply Good.of_le (le_ignore s)
+  apply Good.bind (good_ignoreRun _ _ he_sp)
+  intro s1 _
+  split
+  · exact Good.pure ((le_accept s1 _ false).trans (le_emit _ _))
+  · apply Good.err; simp [Scan.err]
+
+/-- an optional `, index` -/
+theorem good_optIndex (s : Scan) :
+    Good s (if (s.accept [',']).snd = true then lexOpcodeIndex (s.accept [',']).fst else pure s) := by
+  split
+  · exact Good.of_le (le_accept s _ false) (good_lexOpcodeIndex _)
+  · exact Good.pure (Le.refl s)
+
+theorem le_bracket (s : Scan) (c1 c2 : Char) (t1 t2 : TokTy) :
+    Le s (if (s.peek == c1) = true then (s.next).1.emit t1 else if (s.peek == c2) = true then (s.next).1.emit t2 else s) := by
+  split
+  · exact (le_next s).trans (le_emit _ _)
+  · split
+    · exact (le_next s).trans (le_emit _ _)
+    · exact Le.refl s
+
+theorem good_lexOperand (s : Scan) : Good s (lexOperand s) := by
+  unfold lexOperand
+  simp only []
+  have tail : ∀ (t : Scan), Good t (do
+      let s ← (if (t.peek == ')') = true then (t.next).1.emit TokTy.RPAREN
+               else if (t.peek == ']') = true then (t.next).1.emit TokTy.RBRAKET else t).ignoreRun [' ']
+      if (s.accept [',']).snd = true then lexOpcodeIndex (s.accept [',']).fst else pure s) := by
+    intro t
+    apply Good.of_le (le_bracket t ')' ']' .RPAREN .RBRAKET)
+    apply Good.bind (good_ignoreRun _ _ he_sp)
+    intro s1 _
+    exact good_optIndex s1
+  have hopen : Le s (if (s.peek == '#') = true then (s.next).1.emit TokTy.SHARP
+      else if (s.peek == '(') = true then (s.next).1.emit TokTy.LPAREN
+      else if (s.peek == '[') = true then (s.next).1.emit TokTy.LBRAKET else s) := by
+    split
+    · exact (le_next s).trans (le_emit _ _)
+    · exact le_bracket s '(' '[' .LPAREN .LBRAKET
+  apply Good.of_le hopen
+  apply Good.bind (good_ignoreRun _ _ he_sp)
+  intro s1 _
+  apply Good.bind (prog_lexExpression s1).good
+  intro s2 _
+  apply Good.bind (good_ignoreRun _ _ he_sp)
+  intro s3 _
+  split
+  · apply Good.of_le (le_accept s3 _ false)
+    apply Good.bind (good_lexOpcodeIndex _)
+    intro s4 _
+    exact tail s4
+  · apply Good.bind (Good.pure (Le.refl s3))
+    intro s4 _
+    exact tail s4
+
+theorem good_lexOpcodeSize (s : Scan) : Good s (lexOpcodeSize s) := by
+  unfold lexOpcodeSize
+  simp only []
+  split
+  · apply Good.of_le (((le_ignore s).trans (le_accept _ _ false)).trans (le_emit _ _))
+    apply Good.bind (good_ignoreRun _ _ he_sp)
+    intro s1 _
+    exact good_lexOperand s1
+  · apply Good.err; simp [Scan.err]
+
+/-- what follows the OPCODE token: optional size suffix, blanks, operand -/
+theorem good_opTail (s : Scan) : Good s (if (s.accept ['.']).snd = true then do
+      let s ← lexOpcodeSize (s.accept ['.']).fst
+      let s ← s.ignoreRun [' ']
+      lexOperand s
+    else do
+      let s ← pure s
+      let s ← s.ignoreRun [' ']
+      lexOperand s) := by
+  split
+  · apply Good.of_le (le_accept s _ false)
+    apply Good.bind (good_lexOpcodeSize _)
+    intro s1 _
+    apply Good.bind (good_ignoreRun _ _ he_sp)
+    intro s2 _
+    exact good_lexOperand s2
+  · apply Good.bind (Good.pure (Le.refl s))
+    intro s1 _
+    apply Good.bind (good_ignoreRun _ _ he_sp)
+    intro s2 _
+    exact good_lexOperand s2
+
+theorem le_setpos {s s3 : Scan} (h : Le s s3) : Le s { s3 with pos := s.pos } :=
+  ⟨h.input, Nat.le_refl _, h.toks⟩
+
+/-- composition where the continuation is measured against the original state -/
+theorem Good.bind' {s : Scan} {r : SR} {f : Scan → SR} (h : Good s r)
+    (hf : ∀ s1, Le s s1 → Good s (f s1)) : Good s (r >>= f) := by
+  cases r with
+  | error e => obtain ⟨e, s2⟩ := e; exact h
+  | ok s1 => exact hf s1 h
+
+theorem good_lexOpcode (cfg : ScanCfg) (s : Scan) : Good s (lexOpcode cfg s) := by
+  unfold lexOpcode
+  simp only []
+  have fin : ∀ (s3 : Scan), Le s s3 → Good s (
+      if (s3.peek == '\n' || s3.peek == '\x00') = true then
+        pure (({ s3 with pos := s.pos } : Scan).emit TokTy.OPCODE_NAKED)
+      else do
+        let s ← pure (({ s3 with pos := s.pos } : Scan).emit TokTy.OPCODE)
+        if (s.accept ['.']).snd = true then do
+            let s ← lexOpcodeSize (s.accept ['.']).fst
+            let s ← s.ignoreRun [' ']
+            lexOperand s
+          else do
+            let s ← pure s
+            let s ← s.ignoreRun [' ']
+            lexOperand s) := by
+    intro s3 h3
+    split
+    · exact Good.pure ((le_setpos h3).trans (le_emit _ _))
+    · apply Good.bind' (Good.pure ((le_setpos h3).trans (le_emit _ _)))
+      intro s4 h4
+      exact Good.of_le h4 (good_opTail s4)
+  split
+  · apply Good.bind' (good_acceptRun _ _ false he_spt)
+    intro s1 h1
+    split
+    · apply Good.bind' (Good.of_le (h1.trans (le_accept s1 _ false)) (good_acceptRun _ _ true he_eol))
+      intro s3 h3
+      exact fin s3 h3
+    · apply Good.bind' (Good.pure (h1.trans (le_accept s1 _ false)))
+      intro s3 h3
+      exact fin s3 h3
+  · apply Good.bind (Good.pure (le_emit s .OPCODE))
+    intro s1 _
+    exact good_opTail s1
+
+theorem letter_ident (c : Char) (h : letterChars.contains c = true) : identChars.contains c = true := by
+  have : identChars = letterChars ++ digitChars := by decide
+  rw [this]; simp only [List.contains_eq_mem, List.mem_append, decide_eq_true_eq] at h ⊢; exact Or.inl h
+
+/-- `lex_identifier` started on a letter consumes it -/
+theorem strict_lexIdentifier (s : Scan) (ha : (s.accept letterChars).2 = true) : Strict s (lexIdentifier s) := by
+  have hlt := accept_true_lt s letterChars nul_letter ha
+  have ha' : (s.accept identChars).2 = true := by
+    unfold Scan.accept at ha ⊢
+    unfold Scan.acceptTest at ha ⊢
+    simp only [Bool.false_eq_true, ↓reduceIte] at ha ⊢
+    split at ha
+    · rename_i h; rw [if_pos (letter_ident _ h)]
+    · cases ha
+  unfold lexIdentifier
+  simp only []
+  cases hr : s.acceptRun identChars with
+  | error e =>
+    have := good_acceptRun s identChars false he_ident
+    rw [hr] at this; obtain ⟨e, s2⟩ := e; exact this
+  | ok s1 =>
+    have h1 : Le s s1 := by have := good_acceptRun s identChars false he_ident; rw [hr] at this; exact this
+    have hlt1 : s.pos < s1.pos := acceptRun_lt s s1 identChars false ha' hlt hr
+    rw [ok_bind]
+    apply Strict.of_lt h1 hlt1
+    split
+    · exact Good.pure (((le_emit s1 .LABEL).trans (le_next _)).trans (le_ignore _))
+    · split
+      · apply Good.of_le (le_next s1)
+        apply Good.bind (good_acceptRun _ identChars false he_ident)
+        intro s2 _
+        exact Good.pure (le_emit s2 .IDENTIFIER)
+      · exact Good.pure (le_emit s1 .IDENTIFIER)
+
+theorem Prog.of_le_same {s sA : Scan} {r : SR} (hle : Le s sA) (ht : sA.toks = s.toks) (h : Prog sA r) : Prog s r := by
+  unfold Prog at h ⊢
+  split
+  · rename_i s' ; simp only at h
+    refine ⟨hle.trans h.1, fun e => ?_⟩
+    have h1 := hle.pos
+    have h2 := h.1.pos
+    have : s'.pos = sA.pos := by omega
+    rw [h.2 this, ht]
+  · simpa using h
+
+theorem strict_acc (t : Scan) (cands : List Char) (h0 : cands.contains '\x00' = false)
+    (ha : (t.accept cands).2 = true) (ty : TokTy) : Strict t (pure ((t.accept cands).1.emit ty)) :=
+  ⟨(le_accept t cands false).trans (le_emit _ _), accept_lt t cands h0 ha⟩
+
+theorem strict_pre (t : Scan) (pre : List Char) (hp : 0 < pre.length)
+    (ha : (t.acceptPrefix pre).2 = true) (ty : TokTy) : Strict t (pure ((t.acceptPrefix pre).1.emit ty)) :=
+  ⟨(le_acceptPrefix t pre).trans (le_emit _ _), acceptPrefix_lt t pre hp ha⟩
+
+theorem strict_acc2 (t : Scan) (c1 c2 : List Char) (h0 : c1.contains '\x00' = false)
+    (ha : (t.accept c1).2 = true) (t1 t2 : TokTy) :
+    Strict t (pure (if ((t.accept c1).1.accept c2).2 = true then ((t.accept c1).1.accept c2).1.emit t1
+                    else (t.accept c1).1.emit t2)) := by
+  split
+  · exact ⟨((le_accept t c1 false).trans (le_accept _ c2 false)).trans (le_emit _ _),
+      Nat.lt_of_lt_of_le (accept_lt t c1 h0 ha) (le_accept _ c2 false).pos⟩
+  · exact ⟨(le_accept t c1 false).trans (le_emit _ _), accept_lt t c1 h0 ha⟩
+
+/-- `accept` of a non-newline candidate followed by `backup`: same input, same position, same tokens -/
+theorem accept_backup_le (t : Scan) (cands : List Char) (h0 : cands.contains '\x00' = false)
+    (ha : (t.accept cands).2 = true) :
+    Le t (t.accept cands).1.backup ∧ (t.accept cands).1.backup.pos = t.pos ∧ (t.accept cands).1.backup.input = t.input := by
+  have hlt := accept_true_lt t cands h0 ha
+  have hp := (accept_step t cands false).2.1 ha hlt
+  refine ⟨⟨(accept_step t cands false).1, ?_, by show t.toks.size ≤ (t.accept cands).1.toks.size; rw [accept_toks]; exact Nat.le_refl _⟩, ?_, (accept_step t cands false).1⟩
+  · show t.pos ≤ (t.accept cands).1.pos - 1; rw [hp]; omega
+  · show (t.accept cands).1.pos - 1 = t.pos; rw [hp]; omega
+
+theorem acceptOpcode_le (cfg : ScanCfg) (t : Scan) : Le t (acceptOpcode cfg t).1 ∧
+    ((acceptOpcode cfg t).2 = true → t.pos < (acceptOpcode cfg t).1.pos) := by
+  unfold acceptOpcode
+  simp only []
+  split
+  · exact ⟨⟨rfl, by simp, Nat.le_refl _⟩, fun _ => by simp⟩
+  · exact ⟨Le.refl t, fun h => by cases h⟩
+
+/-- `accept` only looks at the input and the position -/
+theorem accept_snd_congr (a b : Scan) (cands : List Char) (hi : a.input = b.input) (hp : a.pos = b.pos) :
+    (a.accept cands).2 = (b.accept cands).2 := by
+  unfold Scan.accept Scan.acceptTest Scan.peek
+  simp only [hi, hp]
+  split <;> (split <;> rfl)
+
+theorem prog_lexInitial (cfg : ScanCfg) (s : Scan) : Prog s (lexInitial cfg s) := by
+  unfold lexInitial
+  simp only []
+  have hig := good_ignoreRun s [' ', '\t', '\n'] he_ws
+  cases hr : s.ignoreRun [' ', '\t', '\n'] with
+  | error e => rw [hr] at hig; obtain ⟨e, s2⟩ := e; exact hig
+  | ok t =>
+    rw [hr] at hig
+    have hA : Le s t := hig
+    have hAt : t.toks = s.toks := ignoreRun_toks s t _ hr
+    rw [ok_bind]
+    apply Prog.of_le_same hA hAt
+    by_cases ha : (t.accept [';']).snd = true
+    · rw [if_pos ha]
+      apply Strict.prog
+      apply Strict.of_lt (le_accept t _ false) (accept_lt t _ (by decide) ha)
+      apply Good.bind (good_lineComment _ _ (by have := (le_accept t [';'] false).pos; rw [(le_accept t [';'] false).input]; omega))
+      intro s2 _; exact Good.pure (le_emit s2 _)
+    rw [if_neg ha]; clear ha
+    by_cases ha : (t.accept digitChars).snd = true
+    · rw [if_pos ha]
+      apply Strict.prog
+      apply Strict.of_lt (le_accept t _ false) (accept_lt t _ nul_digit ha)
+      apply good_lexNumber
+      have := accept_true_lt t digitChars nul_digit ha
+      rw [(accept_step t digitChars false).1, (accept_step t digitChars false).2.1 ha this]; omega
+    rw [if_neg ha]; clear ha
+    by_cases ha : (t.accept ['+', '-', '&']).snd = true
+    · rw [if_pos ha]
+      exact (strict_acc t _ (by decide) ha _).prog
+    rw [if_neg ha]; clear ha
+    by_cases ha : (t.acceptPrefix ['=', '=']).snd = true
+    · rw [if_pos ha]
+      exact (strict_pre t _ (by decide) ha _).prog
+    rw [if_neg ha]; clear ha
+    by_cases ha : (t.acceptPrefix ['!', '=']).snd = true
+    · rw [if_pos ha]
+      exact (strict_pre t _ (by decide) ha _).prog
+    rw [if_neg ha]; clear ha
+    by_cases ha : (t.acceptPrefix ['>', '>']).snd = true
+    · rw [if_pos ha]
+      exact (strict_pre t _ (by decide) ha _).prog
+    rw [if_neg ha]; clear ha
+    by_cases ha : (t.acceptPrefix ['<', '<']).snd = true
+    · rw [if_pos ha]
+      exact (strict_pre t _ (by decide) ha _).prog
+    rw [if_neg ha]; clear ha
+    by_cases ha : (t.acceptPrefix ['>']).snd = true
+    · rw [if_pos ha]
+      exact (strict_pre t _ (by decide) ha _).prog
+    rw [if_neg ha]; clear ha
+    by_cases ha : (t.acceptPrefix ['<']).snd = true
+    · rw [if_pos ha]
+      exact (strict_pre t _ (by decide) ha _).prog
+    rw [if_neg ha]; clear ha
+    by_cases ha : (t.accept letterChars).snd = true
+    · rw [if_pos ha]
+      obtain ⟨hb, hbp, hbi⟩ := accept_backup_le t letterChars nul_letter ha
+      apply Strict.prog
+      split
+      · rename_i hop
+        obtain ⟨ho1, ho2⟩ := acceptOpcode_le cfg (t.accept letterChars).1.backup
+        apply Strict.of_lt (hb.trans ho1) (by have := ho2 hop; omega)
+        exact good_lexOpcode cfg _
+      · have hs := strict_lexIdentifier (t.accept letterChars).1.backup
+          (by rw [accept_snd_congr _ t letterChars hbi hbp]; exact ha)
+        unfold Strict at hs ⊢
+        split
+        · rename_i s' heq; rw [heq] at hs; exact ⟨hb.trans hs.1, by have := hs.2; omega⟩
+        · rename_i e s' heq; rw [heq] at hs; exact hs
+    rw [if_neg ha]; clear ha
+    by_cases ha : (t.accept ['.']).snd = true
+    · rw [if_pos ha]
+      apply Strict.prog
+      exact Strict.of_lt (le_accept t _ false) (accept_lt t _ (by decide) ha) (good_lexKeyword cfg _)
+    rw [if_neg ha]; clear ha
+    by_cases ha : (t.accept [',']).snd = true
+    · rw [if_pos ha]
+      exact (strict_acc t _ (by decide) ha _).prog
+    rw [if_neg ha]; clear ha
+    by_cases ha : (t.acceptPrefix [':', '=']).snd = true
+    · rw [if_pos ha]
+      exact (strict_pre t _ (by decide) ha _).prog
+    rw [if_neg ha]; clear ha
+    by_cases ha : (t.acceptPrefix ['@', '=']).snd = true
+    · rw [if_pos ha]
+      exact (strict_pre t _ (by decide) ha _).prog
+    rw [if_neg ha]; clear ha
+    by_cases ha : (t.accept ['*']).snd = true
+    · rw [if_pos ha]
+      exact (strict_acc2 t _ _ (by decide) ha _ _).prog
+    rw [if_neg ha]; clear ha
+    by_cases ha : (t.accept ['\'']).snd = true
+    · rw [if_pos ha]
+      apply Strict.prog
+      exact Strict.of_lt (le_accept t _ false) (accept_lt t _ (by decide) ha) (good_lexQuotedString _)
+    rw [if_neg ha]; clear ha
+    by_cases ha : (t.accept ['(']).snd = true
+    · rw [if_pos ha]
+      exact (strict_acc t _ (by decide) ha _).prog
+    rw [if_neg ha]; clear ha
+    by_cases ha : (t.accept [')']).snd = true
+    · rw [if_pos ha]
+      exact (strict_acc t _ (by decide) ha _).prog
+    rw [if_neg ha]; clear ha
+    by_cases ha : (t.accept ['[']).snd = true
+    · rw [if_pos ha]
+      exact (strict_acc t _ (by decide) ha _).prog
+    rw [if_neg ha]; clear ha
+    by_cases ha : (t.accept [']']).snd = true
+    · rw [if_pos ha]
+      exact (strict_acc t _ (by decide) ha _).prog
+    rw [if_neg ha]; clear ha
+    by_cases ha : (t.accept ['{']).snd = true
+    · rw [if_pos ha]
+      exact (strict_acc2 t _ _ (by decide) ha _ _).prog
+    rw [if_neg ha]; clear ha
+    by_cases ha : (t.accept ['}']).snd = true
+    · rw [if_pos ha]
+      exact (strict_acc2 t _ _ (by decide) ha _ _).prog
+    rw [if_neg ha]; clear ha
+    by_cases ha : (t.accept ['=']).snd = true
+    · rw [if_pos ha]
+      exact (strict_acc t _ (by decide) ha _).prog
+    rw [if_neg ha]; clear ha
+    by_cases ha : (t.acceptPrefix ['/', '*']).snd = true
+    · rw [if_pos ha]
+      apply Strict.prog
+      apply Strict.of_lt (le_acceptPrefix t _) (acceptPrefix_lt t _ (by decide) ha)
+      apply Good.bind (good_blockComment _ _ (by have := (le_acceptPrefix t ['/', '*']).pos; rw [(le_acceptPrefix t ['/', '*']).input]; omega))
+      intro s2 _; exact Good.pure (le_emit s2 _)
+    rw [if_neg ha]; clear ha
+    by_cases hn : ((t.next).2 != none) = true
+    · rw [if_pos hn]; show _ ≠ Err.outOfFuel; simp [Scan.err]
+    · rw [if_neg hn]
+      have hnone : (t.next).2 = none := by
+        cases hx : (t.next).2 with
+        | none => rfl
+        | some c => rw [hx] at hn; simp at hn
+      have hge := (next_some_iff t).mp hnone
+      show Prog t (pure (t.next).1)
+      rw [(next_pos_ge t hge).1]
+      exact ⟨Le.refl t, fun _ => rfl⟩
+
+theorem prog_runState (cfg : ScanCfg) (st : ScanState) (s : Scan) : Prog s (runState cfg st s) := by
+  cases st with
+  | initial => exact prog_lexInitial cfg s
+  | expression => exact prog_lexExpression s
+
+/-- the loop of `Scanner.scan` never runs out of its fuel `len(input) − pos + 1`: every iteration that
+    continues has strictly advanced `pos` -/
+theorem scanLoop_total (cfg : ScanCfg) (st : ScanState) : ∀ (n : Nat) (s : Scan), s.input.size - s.pos < n →
+    ∀ (e : Err) (s' : Scan), scanLoop cfg st n s = .error (e, s') → e ≠ .outOfFuel := by
+  intro n
+  induction n with
+  | zero => intro s h; omega
+  | succ n ih =>
+    intro s hn e s' h
+    unfold scanLoop at h
+    by_cases hlt : s.pos < s.input.size
+    · rw [if_pos hlt] at h
+      have hp := prog_runState cfg st s
+      cases hr : runState cfg st s with
+      | error er =>
+        rw [hr] at h hp
+        obtain ⟨e2, s2⟩ := er
+        simp only at h
+        cases h
+        exact hp
+      | ok s1 =>
+        rw [hr] at h hp
+        simp only at h
+        have hp1 : Le s s1 ∧ (s1.pos = s.pos → s1.toks.size = s.toks.size) := hp
+        by_cases hg : (s1.pos == s.pos && s1.toks.size == s.toks.size) = true
+        · rw [if_pos hg] at h
+          cases h
+          simp [Scan.err]
+        · rw [if_neg hg] at h
+          have hne : s1.pos ≠ s.pos := by
+            intro he
+            apply hg
+            simp [he, hp1.2 he]
+          have hlt1 : s.pos < s1.pos := by have := hp1.1.pos; omega
+          exact ih s1 (by rw [hp1.1.input]; omega) e s' h
+    · rw [if_neg hlt] at h; cases h
+
+/-- **the scanner terminates on every input**: `Scanner.scan` never runs out of fuel, whatever the
+    configuration, the initial state and the text -/
+theorem scan_total (cfg : ScanCfg) (st : ScanState) (file : Nat) (input : List Char) :
+    (scan cfg st file input).error ≠ some .outOfFuel := by
+  unfold scan
+  simp only []
+  have htot := scanLoop_total cfg st (input.length + 1) { input := input.toArray, file := file } (by simp)
+  cases hr : scanLoop cfg st (input.length + 1) { input := input.toArray, file := file } with
+  | ok s => simp
+  | error er =>
+    obtain ⟨e, s⟩ := er
+    have hne := htot e s hr
+    obtain ⟨s2, h2, _, _⟩ := acceptRun_ok s ['\n', '\x00'] true he_eol
+    cases e <;> simp_all
+
 end A816.ScanT
